@@ -26,3 +26,7 @@ C('C15', 'encode/decode unit model over generated strings; byte images of fixed 
 C('C18', 'differential oracle (second cffi path: element-wise indexing) on random memory, every misalignment; ASan decides over-reads',
   'Exploration: 38 item types (all integer fast paths, _Bool with bytes>=2, char and wide chars incl. surrogates and out-of-range units, floats, long double, complex, pointers, enums, structs, arrays) x misalignment 0..7 x n up to the end of the malloc block; value or exception class compared.',
   'cdata elements compared by type and address/value bytes. Known finding: char16_t surrogate pairs are joined by unpack only.')
+
+C('C16', 'history + byte-array reference model in lock-step; whole backing store compared after every operation; ASan red zones behind owned arrays',
+  'Exploration: random 60-operation histories (index/slice read and write with in-range, boundary and >64-bit indexes, slices with step/missing bounds, writes through slices, slice assignment from 5 source kinds with right/wrong counts, pointer +/-/difference, (p+i)[j], addressof, offsetof, owning-pointer indexes) over 13 element kinds; accept/reject, exception class, aliasing and bytes compared with the model.',
+  'Offsets bounded to |i*sizeof| < 2**62; non-integer keys not generated.')
